@@ -48,7 +48,9 @@ def ensure(flavour, targets=None, quiet=True):
     fcntl.flock(lock, fcntl.LOCK_EX)
     try:
         cfg = ["cmake", "-G", "Ninja", "-S", os.path.join(VERIF, "drivers"), "-B", bdir,
-               "-DCMAKE_BUILD_TYPE=None",
+               # san: CMake "Debug" only to keep Qt's inline assertions (Q_ASSERT in QString::at() etc.) alive - Qt's imported targets
+               # add QT_NO_DEBUG to every other configuration; optimisation and -g come from CMAKE_CXX_FLAGS either way
+               "-DCMAKE_BUILD_TYPE=" + ("Debug" if flavour == "san" else "None"), "-DCMAKE_CXX_FLAGS_DEBUG=",
                "-DCMAKE_CXX_COMPILER=" + f["cxx"],
                "-DCMAKE_CXX_FLAGS=" + f["flags"],
                "-DCMAKE_EXE_LINKER_FLAGS=" + f["ld"],
@@ -80,7 +82,7 @@ def driver(flavour, name):
 
 
 FUZZ_FLAGS = ("-std=gnu++17 -O1 -g -fno-omit-frame-pointer -fsanitize=fuzzer,address,undefined -fno-sanitize-recover=all "
-              "-fno-sanitize=object-size -DQTLOGGER_STATIC -DQT_NO_DEBUG -DQT_CORE_LIB -fPIC " + GUARD)
+              "-fno-sanitize=object-size -DQTLOGGER_STATIC -DQT_CORE_LIB -fPIC " + GUARD)   # no QT_NO_DEBUG: Qt's inline assertions stay on
 
 
 def ensure_fuzz():
